@@ -52,7 +52,7 @@ LEVEL_TEXT = ("Machine-checked: the identifier lines written with repr() read ba
 LEVEL_NOTE = ("Partial: Mako, file naming and importlib are observed only; ancestors/descendants are modelled by their sets; "
               "cycle detection is outside (cannot fire on generated histories); rejected calls are outside the statement.")
 
-IDS = ["r{k}a{k}x", "r{k}b'{k}q", 'r{k}c"{k}d', "r{k}dé{k}ü", "r{k}e {k}sp", "r{k}f​{k}zw", "R{k}G{k}Mixed", "r{k}h_{k}"]
+IDS = ["r{k}a{k}x", "R{k}A{k}x", "r{k}A{k}X", "r{k}b'{k}q", 'r{k}c"{k}d', "r{k}dé{k}ü", "r{k}e {k}sp", "r{k}f​{k}zw", "R{k}G{k}Mixed", "r{k}h_{k}"]
 MSGS = ["plain message", "it's quoted", 'say "hi" twice', "multi\nline\nmessage", "unicodé 中文 ✓", "tab\there", "",
         "ends with quote'", "percent %s %(x)s ${y}", "a\u200bzero", "<%text>mako</%text> ## comment", "x" * 70, "UPPER Case MiXed", "İzmir ÄÖÜ table", "trailing___under__scores_", "a-b-c d.e/f",
         "123 numbers first", "one_very_long_word_" * 4, "__init__ later word", "ǅ titlecase ǈ"]
@@ -138,6 +138,18 @@ def gen_vpath(k):
                                     "explicit": True, "recursive": (k // 10) % 2 == 1}, "seed": k}
 
 
+def gen_caseids(k):
+    """revision ids that differ only in letter case (and mixed-case ids in general), same message: they must stay different files"""
+    tpl = [None, "%%(rev)s_%%(slug)s", "%%(slug)s_%%(rev)s", "%%(year)d_%%(rev)s"][k % 4]
+    ids = [["rel2", "REL2", "Rel2"], ["AbC", "aBc", "abc"], ["MixedCaseId", "mixedcaseid", "MIXEDCASEID"]][k % 3]
+    calls = [{"rid": ids[0], "msg": "release", "via": "generate", "head": "base", "fixed": True},
+             {"rid": ids[1], "msg": "release", "via": ["generate", "revision"][k % 2], "head": "pick_head", "fixed": True},
+             {"rid": ids[2], "msg": "Release", "via": "generate", "head": "pick_head", "fixed": True,
+              "deps": ["id"] if k % 2 else []}]
+    return {"calls": calls, "cfg": {"file_template": tpl, "truncate_slug_length": None, "locations": 1 + k % 2, "explicit": True,
+                                    "recursive": False}, "seed": k}
+
+
 def finding_cases(reg):
     out = []
     base = {"cfg": {"file_template": None, "truncate_slug_length": None, "locations": 1}, "seed": 1}
@@ -177,6 +189,8 @@ def generate(tier, seed):
         yield gen_merge3(rnd, k)
     for k in range(60):
         yield gen_vpath(k)
+    for k in range(12):
+        yield gen_caseids(k)
 
 
 def search(tier, seed):
@@ -513,7 +527,60 @@ def _run_case(h):
                       "rejected": o["rejected"], "file_left": o["left"], "file": o["file"]} for o in steps_out],
            "rejected": rejected, "log": log}
     shape = "n%d%s%s" % (len([o for o in steps_out if not o["rejected"]]), "" if all(o["module_ok"] for o in steps_out) else "-syntaxerror", "-rej" if rejected else "")
-    return dict(cin=cin, cout=cout, out=out, nontrivial=len([o for o in steps_out if not o["rejected"]]) >= 2, shape=shape)
+    return dict(cin=cin, cout=cout, out=out, nontrivial=len([o for o in steps_out if not o["rejected"]]) >= 2, shape=shape,
+                can=[{k: v for k, v in o.items() if k != "path"} for o in steps_out])
+
+
+def _e_so(o):
+    return "(mkSO %s %s %s %s %s %s %s %s)" % (
+        S(o["header"]), cf.boolean(o["loaded"]), cf.boolean(o["module_ok"]),
+        "None" if o["views"] is None else "(Some (%s, %s))" % (e_view(o["views"][0]), e_view(o["views"][1])),
+        cf.boolean(o["rejected"]), cf.boolean(o["left"]), o["dir"], S(o["file"]))
+
+
+def canary(h, rec):
+    """deliberately corrupted observations of the last accepted call of this sequence; the decider must reject every one"""
+    import copy
+    if rec.get("idx", 0) % 3:
+        return []                                   # every third case: keeps the quick tier inside its time budget
+    steps = rec.get("can") or []
+    idx = [i for i, o in enumerate(steps) if not o["rejected"] and o["module_ok"] and o["loaded"] and o["views"] is not None and o.get("same")]
+    if not idx or len(idx) != len([o for o in steps if not o["rejected"]]):
+        return []                                   # the decider fails on this case anyway
+    i = idx[-1]
+    out = []
+
+    def emit(o):
+        out.append(lst(steps[:i] + [o] + steps[i + 1:], _e_so))
+    o = steps[i]
+    lines = o["header"].splitlines(keepends=True)
+    # one character of the revision id literal changed
+    bad = copy.deepcopy(o)
+    bad["header"] = lines[0].replace("= '", "= 'Z", 1).replace('= "', '= "Z', 1) + "".join(lines[1:])
+    emit(bad)
+    # two header fields swapped (down_revision <-> depends_on), when that changes anything
+    v1, v3 = lines[1].split(" = ", 1)[1], lines[3].split(" = ", 1)[1]
+    if v1 != v3:
+        bad = copy.deepcopy(o)
+        bad["header"] = lines[0] + lines[1].split(" = ", 1)[0] + " = " + v3 + lines[2] + lines[3].split(" = ", 1)[0] + " = " + v1
+        emit(bad)
+    # a branch label missing after the reload (or, without labels, a head)
+    bad = copy.deepcopy(o)
+    vm, vd = bad["views"]
+    revs = [list(r) for r in vd["revs"]]
+    hit = [r for r in revs if r[6]]
+    if hit:
+        hit[0][6] = hit[0][6][1:]
+        vd = dict(vd, revs=[tuple(r) for r in revs])
+    else:
+        vd = dict(vd, heads=vd["heads"][1:])
+    bad["views"] = (vm, vd)
+    emit(bad)
+    # the file name turned into one the loader skips
+    bad = copy.deepcopy(o)
+    bad["file"] = "__init__" + o["file"]
+    emit(bad)
+    return out
 
 
 def script_dir_of(script, cfg, sd):
@@ -528,4 +595,13 @@ def script_dir_of(script, cfg, sd):
 
 
 def classify(h, out):
-    return h.get("finding")
+    if h.get("finding"):
+        return h["finding"]
+    steps = [st for st in (out or {}).get("steps", []) if not st.get("rejected")]
+    if any(st.get("file", "").startswith(("__init__", ".#")) and not st.get("loaded") for st in steps):
+        return "C17-filename-ignored-by-loader"       # e.g. a slug-first template and a message that starts with __init__
+    tpl = (h.get("cfg") or {}).get("file_template") or "%%(rev)s_%%(slug)s"
+    names = [st.get("file") for st in steps]
+    if "(rev)" not in tpl and len(set(names)) < len(names):
+        return "C17-file-template-without-rev-overwrites"
+    return None
